@@ -13,7 +13,7 @@
    recomputes them from the world when it validates the recorded replies. *)
 EXTENDS Claims, Json, SequencesExt
 
-CONSTANTS Mode, Depth, MinItems, QTimes
+CONSTANTS Mode, Depth, MinItems, QTimes, QSigners
 VARIABLES mode, ended
 gvars == <<world, mode, ended>>
 
@@ -56,6 +56,6 @@ ItemSeq == [i \in 1..Cardinality(world) |-> CHOOSE c \in world : c.id = i]
 SortedSeq(S) == SetToSortSeq(S, <)
 StrSeq(S) == SetToSeq(S)
 Emit == ended => PrintT(<<"WORLD", ToJson([items |-> ItemSeq, pn |-> PN, attrs |-> StrSeq(SAttrs),
-                                           times |-> SortedSeq(QTimes), signers |-> <<0, 1, 2>>,
+                                           times |-> SortedSeq(QTimes), signers |-> SortedSeq(QSigners),
                                            vals |-> SortedSeq(SVals)])>>)
 =============================================================================
